@@ -262,8 +262,28 @@ where
             }
         }
     }
+    // --- the consuming one-step route (`into_scoring`, which rewrites the frequency table in place) obeys the same definition
+    let into = freq.clone().into_scoring(bg.clone());
+    if into.background().frequencies() != bg.frequencies() {
+        return Some(Failure::new("into_scoring:background", "the scoring matrix does not carry the requested background".to_string()));
+    }
+    if into.matrix().rows() != m {
+        return Some(Failure::new("into_scoring:rows", format!("{} rows for a frequency matrix of {}", into.matrix().rows(), m)));
+    }
+    for i in 0..m {
+        for j in 0..k {
+            let wdef = if bgf[j] == 0.0 { 0.0 } else { fdef[i][j] / bgf[j] };
+            let sdef = if wdef == 0.0 { f64::NEG_INFINITY } else { wdef.log2() };
+            let s = into.matrix()[i][j] as f64;
+            let s1 = one.matrix()[i][j] as f64;
+            info.comparisons += 1;
+            if !close(s, sdef, 2e-5) || !close(s, s1, 2e-5) {
+                return Some(Failure::new("into_scoring:value", format!("row {} symbol {}: into_scoring {} to_scoring {} definition {}", i, j, s, s1, sdef)));
+            }
+        }
+    }
     // --- conversion traits: ScoringMatrix::from(weight) is to_scoring(); WeightMatrix::from(scoring) inverts it
-    let via_from = lightmotif::pwm::ScoringMatrix::<A>::from(weight.clone());
+    let via_from =lightmotif::pwm::ScoringMatrix::<A>::from(weight.clone());
     if via_from.background().frequencies() != two.background().frequencies() || (0..m).any(|i| via_from.matrix()[i].iter().zip(two.matrix()[i].iter()).any(|(a, b)| a.to_bits() != b.to_bits())) {
         return Some(Failure::new("ScoringMatrix::from(weight)", "differs from weight.to_scoring()".to_string()));
     }
@@ -361,7 +381,7 @@ impl Sub for Chain {
         "chain"
     }
     fn rule(&self) -> &'static str {
-        "count matrix (M 0..30, cells 0..1000 and up to u32::MAX, both alphabets) x pseudocounts (scalar, per-symbol, or built for a scalar and then overwritten in place through AsMut) x background (uniform / from counts / dyadic, zero entries, non-zero wildcard, one symbol counted 1..3 times among billions) x second background x base {2,10,e,3.7,...}; to_freq, to_weight, to_scoring (one-step and two-step; cell by cell, and as whole matrices with == before and after one of the two answered min_score / max_score / to_discrete), to_scoring_with_base, rescale, min_score/max_score compared with the f64 definitions (tolerance 1e-5 relative); rows with zero total are excluded; non-trivial = M >= 2 and (non-uniform background or per-symbol pseudocounts or base != 2)"
+        "count matrix (M 0..30, cells 0..1000 and up to u32::MAX, both alphabets) x pseudocounts (scalar, per-symbol, or built for a scalar and then overwritten in place through AsMut) x background (uniform / from counts / dyadic, zero entries, non-zero wildcard, one symbol counted 1..3 times among billions) x second background x base {2,10,e,3.7,...}; to_freq, to_weight, to_scoring (one-step, consuming one-step `into_scoring`, and two-step; cell by cell, and as whole matrices with == before and after one of the two answered min_score / max_score / to_discrete), to_scoring_with_base, rescale, min_score/max_score compared with the f64 definitions (tolerance 1e-5 relative); rows with zero total are excluded; non-trivial = M >= 2 and (non-uniform background or per-symbol pseudocounts or base != 2)"
     }
     fn cases(&self, tier: Tier) -> u64 {
         tier.pick(60_000, 1_500_000)
